@@ -338,12 +338,17 @@ func c10Gen(t *rapid.T) c10Case {
 		}
 	case "direct":
 		h := func(d string) map[string]string { return map[string]string{"sha256": d} }
-		names := []string{"./a", "sub//b", "x/../c", "d/", "e", "sub/./f"}
-		pick := rapid.SliceOfNDistinct(rapid.SampledFrom(names), 1, 4, rapid.ID[string]).Draw(t, "names")
+		names := []string{"./a", "sub//b", "x/../c", "d/", "e", "sub/./f", "a", "c"}
+		pick := rapid.SliceOfNDistinct(rapid.SampledFrom(names), 1, 5, rapid.ID[string]).Draw(t, "names")
 		item := hx.RLink{Materials: map[string]map[string]string{}, Products: map[string]map[string]string{}}
 		dst := hx.RLink{Materials: map[string]map[string]string{}, Products: map[string]map[string]string{}}
 		for _, n := range pick {
 			item.Products[n] = h("aa")
+			if n == "a" || n == "c" {
+				// the same artifact under two spellings, with different digests: whichever spelling the
+				// verifier prefers, it has to prefer it every time
+				item.Products[n] = h("bb")
+			}
 			if rapid.Bool().Draw(t, "inmat") {
 				item.Materials[n] = h("aa")
 			}
@@ -351,9 +356,10 @@ func c10Gen(t *rapid.T) c10Case {
 		}
 		c.Direct = c03Case{ItemKind: "step", Wrapper: rapid.SampledFrom([]string{"legacy", "dsse"}).Draw(t, "wrapper"),
 			MatRules:  [][]string{{"MATCH", "*", "WITH", "PRODUCTS", "FROM", "dst"}, {"ALLOW", "*"}},
-			ProdRules: [][]string{{"MATCH", "*", "WITH", "PRODUCTS", "FROM", "dst"}, {"DISALLOW", "sub/*"}, {"ALLOW", "*"}},
+			ProdRules: [][]string{{"MATCH", "*", "WITH", "PRODUCTS", "FROM", "dst"}, {"DISALLOW", "sub/*"}, {rapid.SampledFrom([]string{"ALLOW", "DISALLOW"}).Draw(t, "closing"), "*"}},
 			Links:     map[string]hx.RLink{"item": item, "dst": dst}}
 		c.Calls = []c10Call{{}}
+		c.Repeats = hx.Pick(12, 32)
 	}
 	return c
 }
